@@ -248,6 +248,7 @@ func main() {
 	run := ev.Start("C23", "model_checking")
 	spec.MaxDepth = len(events) + 1
 	st := xplore.BFS(run, spec)
+	concurrent(run)
 	run.Set("states", st.States)
 	run.Set("transitions", st.Transitions)
 	run.Set("traces_validated_against_impl", st.Checks)
